@@ -146,6 +146,11 @@ where
     pub fn build<P: Into<PathBuf>>(&mut self, file: P) -> BuildResult {
         let file = file.into();
         self.working_dir = file.parent().unwrap().to_path_buf();
+        // One output per file is a rule about the statements of a single
+        // build. A lock left by a file built earlier with the same
+        // environment, or by this file when it was imported by one, must
+        // not fail this build.
+        self.environment.borrow_mut().out_lock.clear();
         if self.validate_mode {
             // The assertion results describe this build. The environment is
             // shared with the files built before this one so start over.
